@@ -138,6 +138,8 @@ def run_prop(chk, replay, prop):
             style = {"ragged": True}          # a length error of less than one value (taste_common.concretise)
         if prop in ("C04", "C20") and not style and any(a.get("k") == "DeleteFile" for a in (sc.get("applied") or [])) and i % 2 == 0:
             style = {"ghost": True}           # the deleted file keeps a directory entry (dangling link / directory of that name)
+        if prop in ("C03", "C04") and ndims == 3 and not style and i % 61 == 7 and not sc["opts"]["data"]:
+            style = {"far": True}             # recorded positions beyond 2**31 (a sparse box of zeros of more than 2 GiB in front)
         if i % 9 == 4 and not style:
             style = {"crowd": True}           # hundreds of further boxes in front of the modelled ones, in the same files
         cfgseed = chk.rng.randrange(1 << 30)
